@@ -254,4 +254,105 @@ def parseSel (dur : Bytes → Option Int) : Nat → List Tok → CfRes
 def parseLbPolicy (dur : Bytes → Option Int) (toks : List Tok) : CfRes :=
   parseSel dur (2 * toks.length + 4) (nextSegment (Disp.mk toks 0 0).next.2).1
 
+/-! ### the `reverse_proxy` directive: upstreams, `lb_*` and passive health options
+(reverseproxy/caddyfile.go `Handler.UnmarshalCaddyfile`: the upstream arguments, and of the block
+loop the subdirectives `to`, `lb_policy`, `lb_retries`, `lb_try_duration`, `lb_try_interval`,
+`max_fails`, `fail_duration`, `unhealthy_request_count`; every other subdirective is outside this
+model and answered `err` like an unknown one). `parseUpstreamDialAddress` + `ParseNetworkAddress`
+are a parameter (`addr`: token ↦ the dial addresses it stands for, `none` = rejected), upstream
+tokens carry no URL scheme. -/
+
+/-- what `UnmarshalCaddyfile` has filled in so far -/
+structure RpCfg where
+  ups : List Bytes            -- `h.Upstreams[i].Dial`
+  pol : Option PolCfg         -- `h.LoadBalancing.SelectionPolicyRaw`
+  retries : Int               -- `h.LoadBalancing.Retries`
+  tryDur : Int                -- `TryDuration`
+  tryInt : Int                -- `TryInterval`
+  passive : Bool              -- `h.HealthChecks.Passive` is allocated
+  maxFails : Int
+  failDur : Int
+  urc : Int                   -- `UnhealthyRequestCount`
+deriving DecidableEq, Repr
+
+def RpCfg.empty : RpCfg := ⟨[], none, 0, 0, 0, false, 0, 0, 0⟩
+
+/-- `for _, up := range args { appendUpstream(up) }`; `none` = an address is rejected -/
+def appendUps (addr : Bytes → Option (List Bytes)) : List Bytes → List Bytes → Option (List Bytes)
+  | [], acc => some acc
+  | a :: rest, acc =>
+    match addr a with
+    | some ds => appendUps addr rest (acc ++ ds)
+    | none => none
+
+/-- one iteration of the block loop, the dispenser standing on the subdirective's name;
+    `none` = an error is returned -/
+def rpStep (dur : Bytes → Option Int) (addr : Bytes → Option (List Bytes)) (d : Disp) (st : RpCfg) : Option (Disp × RpCfg) :=
+  if d.val = str "to" then
+    match (remainingArgs (d.toks.length + 2) d).1 with
+    | [] => none
+    | args => match appendUps addr args st.ups with
+      | some ups => some ((remainingArgs (d.toks.length + 2) d).2, { st with ups := ups })
+      | none => none
+  else if d.val = str "lb_policy" then
+    if d.nextArg.1 then
+      if st.pol.isSome then none   -- load balancing selection policy already specified
+      else match parseSel dur (2 * d.toks.length + 4) (nextSegment d.nextArg.2).1 with
+        | .ok p => some ((nextSegment d.nextArg.2).2, { st with pol := some p })
+        | _ => none
+    else none
+  else if d.val = str "lb_retries" then
+    if d.nextArg.1 then
+      match C16.atoi d.nextArg.2.val with
+      | some v => some (d.nextArg.2, { st with retries := v })
+      | none => none
+    else none
+  else if d.val = str "lb_try_duration" then
+    if d.nextArg.1 then
+      match dur d.nextArg.2.val with
+      | some v => some (d.nextArg.2, { st with tryDur := v })
+      | none => none
+    else none
+  else if d.val = str "lb_try_interval" then
+    if d.nextArg.1 then
+      match dur d.nextArg.2.val with
+      | some v => some (d.nextArg.2, { st with tryInt := v })
+      | none => none
+    else none
+  else if d.val = str "max_fails" then
+    if d.nextArg.1 then
+      match C16.atoi d.nextArg.2.val with
+      | some v => some (d.nextArg.2, { st with passive := true, maxFails := v })
+      | none => none
+    else none
+  else if d.val = str "fail_duration" then
+    if d.nextArg.1 then
+      match dur d.nextArg.2.val with
+      | some v => some (d.nextArg.2, { st with passive := true, failDur := v })
+      | none => none
+    else none
+  else if d.val = str "unhealthy_request_count" then
+    if d.nextArg.1 then
+      match C16.atoi d.nextArg.2.val with
+      | some v => some (d.nextArg.2, { st with passive := true, urc := v })
+      | none => none
+    else none
+  else none   -- unrecognized subdirective (or one outside this model)
+
+/-- `for d.NextBlock(0) { … }` -/
+def rpLoop (dur : Bytes → Option Int) (addr : Bytes → Option (List Bytes)) : Nat → Disp → RpCfg → Option RpCfg
+  | 0, _, st => some st
+  | n + 1, d, st =>
+    if (d.nextBlock 0).1 then
+      match rpStep dur addr (d.nextBlock 0).2 st with
+      | some (d', st') => rpLoop dur addr n d' st'
+      | none => none
+    else some st
+
+/-- `Handler.UnmarshalCaddyfile` on the tokens of the directive (the first is `reverse_proxy`) -/
+def parseReverseProxy (dur : Bytes → Option Int) (addr : Bytes → Option (List Bytes)) (toks : List Tok) : Option RpCfg :=
+  match appendUps addr (remainingArgs (toks.length + 2) (Disp.mk toks 0 0).next.2).1 [] with
+  | some ups => rpLoop dur addr (toks.length + 2) (remainingArgs (toks.length + 2) (Disp.mk toks 0 0).next.2).2 { RpCfg.empty with ups := ups }
+  | none => none
+
 end CaddyModel.C08
